@@ -68,7 +68,7 @@ def check_inv(ip, spec, frame, extra, phase, node):
     for label, fn in spec.invariant.items():
         g = call_clause(fn, env)
         from .dsl import _b
-        ip.ctx.oblige('loop@%s:%s/%s' % (spec.label or node.lineno_label, phase, label), ops.bterm(_b(g)))
+        ip.ctx.oblige('%s/loop@%s:%s/%s' % (ip.verifying_key, spec.label or node.lineno_label, phase, label), ops.bterm(_b(g)))
 
 
 def assume_inv(ip, spec, frame, extra):
@@ -124,12 +124,12 @@ def end_of_iteration(ip, node, frame, spec, extra, head_snap, variant0):
     check_inv(ip, spec, frame, extra, 'preserved', node)
     if spec.variant is not None:
         v1 = call_clause(spec.variant, _env(ip, frame, extra))
-        ip.ctx.oblige('loop@%s:variant-decreases' % (spec.label or node.lineno_label),
+        ip.ctx.oblige('%s/loop@%s:variant-decreases' % (ip.verifying_key, spec.label or node.lineno_label),
                       z3.And(ops.term(v1, 'int') < variant0, variant0 >= 0))
     # loop frame: everything the body changed must be in the declared havoc set
     fd = FrameDiff(ip, head_snap)
     for desc, cond in fd.diffs(_allowed(ip, frame, spec)):
-        ip.ctx.oblige('loop@%s:frame/%s' % (spec.label or node.lineno_label, desc),
+        ip.ctx.oblige('%s/loop@%s:frame/%s' % (ip.verifying_key, spec.label or node.lineno_label, desc),
                       z3.BoolVal(False) if cond is False else cond,
                       detail='location written by the loop body but not in the declared havoc set')
     raise PathEnd()
